@@ -33,7 +33,7 @@ CHECKS["C08"] = {
     "assumptions": [
         "definitions are 'loaded' when the loader accepted them (duplicates rejected by MessageMap::add are not part of the state)",
         "all definitions unconditional (availability through conditions is covered by C13)",
-        "the largest subset size of a tier (quick 3, thorough 4) uses the telegrams derived from the subset's members only",
+        "the largest subset size of a tier (quick 3, thorough 4) uses the telegrams derived from the subset's members only; thorough size 4 draws from a 28-definition core of the universe (all 40: harness option --corelast 0, about 2600 CPU s)",
     ],
     "runs": [{
         "harness": "c08_find", "sources": ["engines/msgmc/c08_find.cpp"], "deps": ["engines/msgmc/c08_universe.h"],
@@ -41,7 +41,7 @@ CHECKS["C08"] = {
         "quick": {"parts": 16, "deadline": 55,
                   "bounds": "40 definitions; all ordered subsets of size<=2 x all telegrams; size 3 x member-derived telegrams; 16 flag combinations"},
         "thorough": {"parts": 16, "deadline": 840,
-                     "bounds": "40 definitions; all ordered subsets of size<=3 x all telegrams; size 4 x member-derived telegrams; 16 flag combinations"},
+                     "bounds": "40 definitions; all ordered subsets of size<=3 x all telegrams; size 4 over the 28-definition core x member-derived telegrams; 16 flag combinations"},
     }],
 }
 
